@@ -62,7 +62,31 @@ def setup():
     mo.uuid = IDS
     if hasattr(gt, "uuid"):
         gt.uuid = IDS
+    _install_recomputation_observer()
     _ready = True
+
+
+FINGERPRINTS = []      # one entry per ModelingUpdate that recomputed something: hash of the recomputation order
+
+
+def _install_recomputation_observer():
+    """Observation only: wraps ModelingUpdate.recompute_attributes to record *which* attributes a real update
+    schedules and in which order (the 'interleavings reached' measure of the evidence). Behaviour is unchanged."""
+    from efootprint.abstract_modeling_classes.modeling_update import ModelingUpdate
+    from efsim.prng import hexid
+    original = ModelingUpdate.recompute_attributes
+
+    def observed(self):
+        try:
+            order = tuple(f"{type(v.modeling_obj_container).__name__}.{v.attr_name_in_mod_obj_container}"
+                          for v in self.values_to_recompute)
+            if order:
+                FINGERPRINTS.append(hexid(order, n=10))
+        except Exception:
+            pass
+        return original(self)
+
+    ModelingUpdate.recompute_attributes = observed
 
 
 def set_salt(salt):
